@@ -17,16 +17,22 @@ package output
 //@        (forall i int :: {sortseq(outDefBag(target.Outputs, target.BinOutput))[i]} 0 <= i && i < len(sortseq(outDefBag(target.Outputs, target.BinOutput))) ==>
 //@          sortseq(outDefBag(target.Outputs, target.BinOutput))[i] == sortseq(bagOf(storedDefsOf(targetResult.Outputs)))[i])
 //@   ensures [failure_leaves_flag] err != nil ==> target.OutputsLoaded == old(target.OutputsLoaded) && target.OutputHash == old(target.OutputHash)
+//@   ensures [success_requires_every_load] err == nil && !old(target.OutputsLoaded) ==> (forall j int :: {tasks[j]} 0 <= j && j < len(tasks) ==> taskOK(tasks[j]))
 //@   ghostset target.restoreTried := true
 //@   ghostset target.restored := err == nil
+//@ loop #2
+//@   invariant [waited_ok] forall j int :: {tasks[j]} 0 <= j && j <= rangeindex ==> taskOK(tasks[j])
 
 //@ func (*Registry).WriteOutputs(r, ctx, target, progress) (res, err)
 //@   modifies heap("H$S$output.handlers.DockerRegistryOutputHandler$dockerClient"), heap("H$S$output.handlers.dockerLayerProgress$lastCurrent"), heap("H$S$proto.gen.Directory$Directories"), heap("H$S$proto.gen.Directory$Files"), heap("H$S$proto.gen.Directory$Symlinks"), heap("M$String$Int$has"), heap("M$String$Int$val"), heap("M$String$Int$len")
 //@   allocates res
 //@   ensures [result_shape] err == nil ==> res != nil && res.ChangeHash == target.ChangeHash
 //@   ensures [nil_on_error] err != nil ==> res == nil
+//@   ensures [success_requires_every_write] err == nil ==> (forall j int :: {tasks[j]} 0 <= j && j < len(tasks) ==> taskOK(tasks[j]))
 //@   ghostset res.complete := err == nil
 //@   ghostset target.outputsStored := err == nil
+//@ loop #2
+//@   invariant [waited_ok] forall j int :: {tasks[j]} 0 <= j && j <= rangeindex ==> taskOK(tasks[j])
 
 //@ func (*Registry).GetNoCacheOutputHash(r, ctx, target) (res, err)
 //@   modifies heap("H$S$output.handlers.DockerRegistryOutputHandler$dockerClient"), heap("H$S$output.handlers.dockerLayerProgress$lastCurrent"), heap("H$S$proto.gen.Directory$Directories"), heap("H$S$proto.gen.Directory$Files"), heap("H$S$proto.gen.Directory$Symlinks"), heap("M$String$Int$has"), heap("M$String$Int$val"), heap("M$String$Int$len")
@@ -34,6 +40,9 @@ package output
 //@   ensures [result_shape] err == nil ==> res != nil && res.ChangeHash == target.ChangeHash && len(res.Outputs) == 0
 //@   ensures [nil_on_error] err != nil ==> res == nil
 //@   ensures [hash_is_a_function_of_the_digest_bag] err == nil ==> res.OutputHash == H(joinOf(sortseq(bagOf(digests)), ","))
+//@   ensures [success_requires_every_hash] err == nil ==> (forall j int :: {tasks[j]} 0 <= j && j < len(tasks) ==> taskOK(tasks[j]))
+//@ loop #2
+//@   invariant [waited_ok] forall j int :: {tasks[j]} 0 <= j && j <= rangeindex ==> taskOK(tasks[j])
 
 // C01/C02: "restore validates declared outputs against the stored result": a stored result is used only if the multiset of
 // its output definitions equals the multiset the target declares now.
